@@ -7,7 +7,9 @@ import common
 for pid in sys.argv[1:] or ["C%02d" % i for i in range(1, 21)]:
     prop = importlib.import_module(pid.lower())
     rng = random.Random("probe-" + pid)
-    cases = [c for c in prop.gen_cases(rng, "quick") if any(isinstance(a, bytes) for a in c["args"])]
+    KIND = os.environ.get("KIND", "bytearray")
+    T = list if KIND == "reuselist" else bytes
+    cases = [c for c in prop.gen_cases(rng, "quick") if any(isinstance(a, T) for a in c["args"])]
     rng.shuffle(cases)
     byop = {}
     for c in cases:
